@@ -66,9 +66,6 @@ def replay_cfgs(chk, tier, base_id):
     for algo, kw in [("SOO", dict(rewards=[0, 1, 2], hmax=100)), ("StoSOO", dict(rewards=[0, 2], hmax=100, k=2)), ("DOO", dict(rewards=[-2, 0, 2]))]:
         R = 5 if tier == "quick" else 7
         P = model_P(algo, R=R, emit=1, **kw)
-        if algo == "DOO":
-            from PyXAB.algos.DOO import DOO_node
-            P["r0"] = SS.code_reward(DOO_node(0, 1, None, [[0, 1]]).get_reward(), 2)
         label = "emit_%s" % algo
         r = run_model(chk, P, [], label, props=(), coverage=False, count=False)
         beh = F.parse_behaviours(r.stdout)
